@@ -177,6 +177,7 @@ func TestCases(t *testing.T) {
 		for _, ns := range []string{"", "ns"} {
 			for _, ih := range []bool{false, true} {
 				rigs[fmt.Sprint(ns, ih)] = newRig(ctx, ns, ih)
+				rigs[fmt.Sprint(ns, ih, "log")] = newRigLimit(ctx, ns, ih, 1e6) // bad lines are logged (bad-lines-per-minute > 0)
 			}
 		}
 		selfChecked := map[string]bool{}
@@ -186,7 +187,12 @@ func TestCases(t *testing.T) {
 				return fmt.Errorf("case %d: %v", idx, err)
 			}
 			ns := []string{"", "ns"}[idx%2]
-			r := rigs[fmt.Sprint(ns, c.IH)]
+			rigKey := fmt.Sprint(ns, c.IH)
+			if idx%4 >= 2 {
+				rigKey = fmt.Sprint(ns, c.IH, "log")
+				res.Hit("bad-line-logging-on")
+			}
+			r := rigs[rigKey]
 			var lines []string
 			for _, l := range c.Lines {
 				lines = append(lines, cat(l))
@@ -213,7 +219,11 @@ func TestCases(t *testing.T) {
 			distinct[text+fmt.Sprint(c.IH)] = true
 			if pan != "" {
 				res.Fail("C03", "parser-panic", fmt.Sprintf("DatagramParser panicked on %q: %s", text, pan), rec)
-				rigs[fmt.Sprint(ns, c.IH)] = newRig(ctx, ns, c.IH)
+				if idx%4 >= 2 {
+					rigs[rigKey] = newRigLimit(ctx, ns, c.IH, 1e6)
+				} else {
+					rigs[rigKey] = newRig(ctx, ns, c.IH)
+				}
 				return nil
 			}
 			if !done {
